@@ -248,6 +248,19 @@ pub fn privacy_unit() -> PrivacyUnit {
     ))
 }
 
+/// the same privacy unit, referring to the tables by their Qrlew names of `World::relations_named`
+pub fn privacy_unit_named() -> PrivacyUnit {
+    PrivacyUnit::from((
+        vec![
+            ("people", vec![], "id"),
+            ("purchases", vec![("user_id", "people", "id")], "id"),
+            ("lines", vec![("order_id", "purchases", "id"), ("user_id", "people", "id")], "id"),
+            ("mm", vec![], PrivacyUnit::privacy_unit_row()),
+        ],
+        false,
+    ))
+}
+
 fn dp_params(tier: Tier) -> Vec<(&'static str, DpParameters)> {
     let mut v = vec![
         ("eps1-delta1e-3", DpParameters::from_epsilon_delta(1.0, 1e-3)),
